@@ -15,7 +15,7 @@
 EXTENDS Obs
 
 PInit == [app |-> Empty, wire |-> Empty, prevApp |-> Empty, prevWire |-> Empty, have |-> FALSE,
-          prevClose |-> -2, cur |-> "asyncio"]
+          prevClose |-> -2, cur |-> "asyncio", wsCC |-> FALSE, wsAC |-> FALSE, wsSrv |-> FALSE]
 
 RECURSIVE NoDate(_)
 NoDate(hs) == IF hs = <<>> THEN <<>>
@@ -62,7 +62,11 @@ DropEmpty(s) == IF s = <<>> THEN <<>>
                 ELSE IF Head(s)[1] = "data" /\ Head(s)[3] = 0 THEN DropEmpty(Tail(s)) ELSE <<Head(s)>> \o DropEmpty(Tail(s))
 NormWire(f) == [a \in DOMAIN f |-> DropEmpty(Merge(f[a]))]
 
-Ctx(o) == IF o.cerr THEN "client-protocol-error"
+\* (a client close frame and an application close, each made before the server had put any close frame on the
+\*  wire: which of the two the server acts on first is a race between the reader and the application task that
+\*  the two runtimes schedule differently)
+Ctx(o, p) == IF p.wsCC /\ p.wsAC THEN "websocket-closes-crossed"
+          ELSE IF o.cerr THEN "client-protocol-error"
           ELSE IF o.shut THEN "during-shutdown"
           ELSE IF ParkedPipeline(o) THEN "pipelined-request-pending"
           ELSE IF o.gone THEN "after-peer-eof"
@@ -71,17 +75,19 @@ Ctx(o) == IF o.cerr THEN "client-protocol-error"
 
 Clauses(o, ev, o2, p) ==
     CASE ev.e = "quiescent" /\ o.final /\ p.have ->
-            (IF p.prevApp = p.app THEN <<>> ELSE <<F("app-seq-differs", Ctx(o))>>)
-         \o (IF NormWire(p.prevWire) = NormWire(p.wire) THEN <<>> ELSE <<F("wire-differs", Ctx(o))>>)
+            (IF p.prevApp = p.app THEN <<>> ELSE <<F("app-seq-differs", Ctx(o, p))>>)
+         \o (IF NormWire(p.prevWire) = NormWire(p.wire) THEN <<>> ELSE <<F("wire-differs", Ctx(o, p))>>)
          \* after a peer reset or a failed write the transport is gone whatever the server does:
          \* when the handler lets go of it is C07's business, not a protocol event
          \o (IF p.prevClose = o.closedAt \/ o.reset \/ o.tfail THEN <<>>
-             ELSE <<F("close-differs", (IF (p.prevClose < 0) # (o.closedAt < 0) THEN "whether" ELSE "when") \o "/" \o Ctx(o))>>)
+             ELSE <<F("close-differs", (IF (p.prevClose < 0) # (o.closedAt < 0) THEN "whether" ELSE "when") \o "/" \o Ctx(o, p))>>)
       [] OTHER -> <<>>
 
 PStep(p, o, ev, o2) ==
     CASE ev.e = "variant" -> [PInit EXCEPT !.prevApp = p.app, !.prevWire = p.wire, !.have = TRUE,
-                                           !.prevClose = o.closedAt, !.cur = "trio"]
+                                           !.prevClose = o.closedAt, !.cur = "trio", !.wsCC = p.wsCC, !.wsAC = p.wsAC]
+      [] ev.e = "c_ws" /\ ev.kind = "close" -> [p EXCEPT !.wsCC = @ \/ ~p.wsSrv]
+      [] ev.e = "app_call" /\ ev.op = "send" /\ ev.m.type = "websocket.close" -> [p EXCEPT !.wsAC = @ \/ ~p.wsSrv]
       \* (a request first taken up after a failed write or a reset is not compared: whether the reader
       \*  survives the loss of the write side is a property of the transport, asyncio's dies, trio's need not)
       [] ev.e \in {"app_start", "app_recv", "app_ret", "app_done"} /\ ~o.final ->
@@ -90,8 +96,9 @@ PStep(p, o, ev, o2) ==
       \* (after a peer reset or a failed write nothing more is compared: what the client-side parser reports
       \*  at the loss of the transport depends on the fake transport, not on the server)
       [] ev.e = "wire" /\ ~o.final ->
-            IF WireItem(ev) = <<>> \/ o.reset \/ o.tfail THEN p
-            ELSE [p EXCEPT !.wire = Put(@, ev.app, Append(Get(p.wire, ev.app, <<>>), WireItem(ev)))]
+            LET p1 == IF ev.kind = "ws_close" THEN [p EXCEPT !.wsSrv = TRUE] ELSE p IN
+            IF WireItem(ev) = <<>> \/ o.reset \/ o.tfail THEN p1
+            ELSE [p1 EXCEPT !.wire = Put(@, ev.app, Append(Get(p.wire, ev.app, <<>>), WireItem(ev)))]
       [] OTHER -> p
 
 MInit == [o |-> OInit, p |-> PInit, fails |-> <<>>]
